@@ -62,9 +62,9 @@ class Call:
         self.failed = ""
 
 
-def run_and_trace(exe, cases, setup_trace=True, validate=True, timeout=180, leak=False):
+def run_and_trace(exe, cases, setup_trace=True, validate=True, timeout=180, leak=False, batch=8):
     """run cases; returns list of Call for every op that produced an R line"""
-    common.run_cases(exe, cases, batch=8, timeout=timeout, leak=leak)
+    common.run_cases(exe, cases, batch=batch, timeout=timeout, leak=leak)
     calls = []
     for c in cases:
         for i, op in enumerate(c.ops):
